@@ -5,10 +5,14 @@
 use vstd::prelude::*;
 use std::collections::HashMap;
 use vstd::std_specs::iter::IteratorSpec;
+use vstd::std_specs::hash::*;
 verus! {
+
+broadcast use vstd::std_specs::hash::group_hash_axioms;
 
 //#include ../_shared/linerange_type.inc.rs
 //#include ../_shared/linerange_specs.inc.rs
+//#include ../_shared/checkpoint_kind.inc.rs
 
 // stand-ins: never inspected by the verified text
 pub struct Repository { pub _opaque: () }
@@ -79,6 +83,13 @@ pub open spec fn lookup_post(es: Seq<AttestationEntry>, md: AuthorshipMetadata, 
 }
 pub open spec fn no_file(atts: Seq<FileAttestation>, file: Seq<char>) -> bool { forall|j: int| 0 <= j < atts.len() ==> (#[trigger] atts[j]).file_path@ != file }
 pub open spec fn first_file_at(atts: Seq<FileAttestation>, file: Seq<char>, i: int) -> bool { 0 <= i < atts.len() && atts[i].file_path@ == file && no_file(atts.subrange(0, i), file) }
+/// the whole contract of get_line_attribution as one predicate, so that callers (region ov_hunk) can name "a lookup result
+/// for this line": a file the note does not name has no AI line; otherwise the answer comes from the FIRST attestation of
+/// that path and, within it, the LAST entry that lists the line wins
+pub open spec fn gla_post(log: AuthorshipLog, file: Seq<char>, line: u32, r: Option<(Author, Option<String>, Option<PromptRecord>)>) -> bool {
+    &&& no_file(log.attestations@, file) ==> r is None
+    &&& forall|i: int| first_file_at(log.attestations@, file, i) ==> lookup_post((#[trigger] log.attestations@[i]).entries@, log.metadata, line, r)
+}
 
 // ---------------------------------------------------------------- O1 stubs (documented behaviour of the std calls)
 /// `self.attestations.iter().find(|f| f.file_path == file)`: the first attestation of that path
@@ -118,10 +129,9 @@ impl AuthorshipLog {
         foreign_prompts_cache: &mut HashMap<String, Option<PromptRecord>>,
     ) -> (r_: Option<(Author, Option<String>, Option<PromptRecord>)>)
     //@     ensures
-    //@         // a file the note does not name has no AI line
-    //@         no_file(self.attestations@, file@) ==> r_ is None,
-    //@         // otherwise the answer comes from the FIRST attestation of that path, and within it the LAST entry that lists the line wins
-    //@         forall|i: int| first_file_at(self.attestations@, file@, i) ==> lookup_post((#[trigger] self.attestations@[i]).entries@, self.metadata, line, r_),
+    //@         // a file the note does not name has no AI line; otherwise the FIRST attestation of that path answers, and within
+    //@         // it the LAST entry that lists the line (and has a resolvable prompt record) wins
+    //@         gla_post(*self, file@, line, r_),
     {
         // Find the file attestation
         let file_attestation = opq_find_file(&self.attestations, file)?;
@@ -187,6 +197,303 @@ impl AuthorshipLog {
     }
 //#end
 }
+
+// ---------------------------------------------------------------- overlay_ai_authorship: one blame hunk
+// stand-ins for chrono types named by GitAiBlameOptions (never inspected)
+#[verifier::external_body]
+#[verifier::reject_recursive_types(T)]
+pub struct DateTime<T> { _p: core::marker::PhantomData<T> }
+pub struct FixedOffset { pub _opaque: () }
+//#item file=src/commands/blame.rs kind=struct name=BlameHunk
+pub struct BlameHunk {
+    pub range: (u32, u32),
+    pub orig_range: (u32, u32),
+    pub commit_sha: String,
+    pub abbrev_sha: String,
+    pub original_author: String,
+    pub author_email: String,
+    pub author_time: i64,
+    pub author_tz: String,
+    pub ai_human_author: Option<String>,
+    pub committer: String,
+    pub committer_email: String,
+    pub committer_time: i64,
+    pub committer_tz: String,
+    pub is_boundary: bool,
+}
+//#end
+//#item file=src/commands/blame.rs kind=struct name=GitAiBlameOptions
+pub struct GitAiBlameOptions {
+    // Line range options
+    pub line_ranges: Vec<(u32, u32)>,
+
+    pub newest_commit: Option<String>,
+    pub oldest_commit: Option<String>,
+    pub oldest_date: Option<DateTime<FixedOffset>>,
+
+    // Output format options
+    pub porcelain: bool,
+    pub line_porcelain: bool,
+    pub incremental: bool,
+    pub show_name: bool,
+    pub show_number: bool,
+    pub show_email: bool,
+    pub suppress_author: bool,
+    pub show_stats: bool,
+
+    // Commit display options
+    pub long_rev: bool,
+    pub raw_timestamp: bool,
+    pub abbrev: Option<u32>,
+
+    // Boundary options
+    pub blank_boundary: bool,
+    pub show_root: bool,
+
+    // Movement detection options
+    pub detect_moves: bool,
+    pub detect_copies: u32, // Number of -C flags (0-3)
+    pub move_threshold: Option<u32>,
+
+    // Ignore options
+    pub ignore_revs: Vec<String>,
+    pub ignore_revs_file: Option<String>,
+    pub no_ignore_revs_file: bool,
+
+    // Color options
+    pub color_lines: bool,
+    pub color_by_age: bool,
+
+    // Progress options
+    pub progress: bool,
+
+    // Date format
+    pub date_format: Option<String>,
+
+    // Content options
+    pub contents_file: Option<String>,
+
+    // Revision options
+    pub reverse: Option<String>,
+    pub first_parent: bool,
+
+    // Encoding
+    pub encoding: Option<String>,
+
+    // Pre-read contents data (from --contents flag, either from stdin or file)
+    // This is populated during argument parsing and used by blame
+    pub contents_data: Option<Vec<u8>>,
+
+    // Use prompt hashes as name instead of author names
+    pub use_prompt_hashes_as_names: bool,
+
+    // Return all human authors as CheckpointKind::Human
+    pub return_human_authors_as_human: bool,
+
+    // No output
+    pub no_output: bool,
+
+    // Ignore whitespace
+    pub ignore_whitespace: bool,
+
+    // JSON output format
+    pub json: bool,
+
+    // Mark lines from commits without authorship logs as "Unknown"
+    pub mark_unknown: bool,
+
+    // Show prompt hashes inline and dump prompts when piped
+    pub show_prompt: bool,
+
+    // Split hunks when lines have different AI human authors
+    // When true, a single git blame hunk may be split into multiple hunks
+    // if different lines were authored by different humans working with AI
+    pub split_hunks_by_ai_author: bool,
+}
+//#end
+
+/// the name shown for a line, given what the note says about its original line
+pub open spec fn shown(r: Option<(Author, Option<String>, Option<PromptRecord>)>, o: GitAiBlameOptions, h: BlameHunk) -> Seq<char> {
+    match r {
+        Some(t) => match t.2 {
+            Some(p) => if o.use_prompt_hashes_as_names { t.1.unwrap()@ } else { p.agent_id.tool@ },
+            None => if o.return_human_authors_as_human { human_str() } else { t.0.username@ },
+        },
+        None => if o.return_human_authors_as_human { human_str() } else { h.original_author@ },
+    }
+}
+/// the name shown for every line of a hunk whose commit has no note
+pub open spec fn no_note_name(o: GitAiBlameOptions, h: BlameHunk) -> Seq<char> {
+    if o.mark_unknown { "Unknown"@ } else if o.return_human_authors_as_human { human_str() } else { h.original_author@ }
+}
+/// what the unverified porcelain parser is ASSUMED to hand over: a forward hunk whose original range is as long
+pub open spec fn hunk_wf(h: BlameHunk) -> bool {
+    h.range.0 <= h.range.1 && h.range.1 - h.range.0 < u32::MAX && h.orig_range.0 + (h.range.1 - h.range.0) <= u32::MAX
+}
+/// the ORIGINAL line number (in the originating commit) of current line l of the hunk
+pub open spec fn orig_of(h: BlameHunk, l: u32) -> u32 { (h.orig_range.0 + (l - h.range.0)) as u32 }
+/// current line l shows what the originating commit's note says about its ORIGINAL line
+pub open spec fn line_ok(m: Map<u32, String>, log: AuthorshipLog, file: Seq<char>, o: GitAiBlameOptions, h: BlameHunk, l: u32) -> bool {
+    m.contains_key(l) && exists|r: Option<(Author, Option<String>, Option<PromptRecord>)>| #[trigger] gla_post(log, file, orig_of(h, l), r) && m[l]@ == shown(r, o, h)
+}
+/// keys outside [lo, hi_excl) are untouched
+pub open spec fn kept_outside(m: Map<u32, String>, m0: Map<u32, String>, lo: u32, hi_excl: int) -> bool {
+    forall|l: u32| !(lo <= l && (l as int) < hi_excl) ==> (#[trigger] m.contains_key(l) <==> m0.contains_key(l)) && (m.contains_key(l) ==> m[l] == m0[l])
+}
+pub open spec fn range_rem(rem: Seq<u32>, start: int, end: int) -> bool {
+    &&& rem.len() == (if start <= end { end - start + 1 } else { 0 })
+    &&& forall|i: int| 0 <= i < rem.len() ==> (#[trigger] rem[i]) == start + i
+}
+/// O1 stubs: `.to_string()` on an owned String; `"Unknown".to_string()`; the two bookkeeping maps (frame only: they do not
+/// touch `line_authors`, which they do not receive)
+#[verifier::external_body]
+fn opq_owned(s: String) -> (r: String)
+    ensures r@ == s@,
+{ unimplemented!() }
+#[verifier::external_body]
+fn opq_unknown_name() -> (r: String)
+    ensures r@ == "Unknown"@,
+{ unimplemented!() }
+#[verifier::external_body]
+fn opq_note_commit(m: &mut HashMap<String, std::collections::HashSet<String>>, hash: &String, sha: &String)
+{ unimplemented!() }
+#[verifier::external_body]
+fn opq_record_prompt(m: &mut HashMap<String, PromptRecord>, hash: String, p: &PromptRecord)
+{ unimplemented!() }
+/// a note that names the file has a first attestation of it
+proof fn lemma_first_file_exists(atts: Seq<FileAttestation>, file: Seq<char>, j: int)
+    requires 0 <= j < atts.len(), atts[j].file_path@ == file,
+    ensures exists|i: int| first_file_at(atts, file, i),
+    decreases j
+{
+    if no_file(atts.subrange(0, j), file) { assert(first_file_at(atts, file, j)); }
+    else {
+        let pre = atts.subrange(0, j);
+        let k = choose|k: int| 0 <= k < pre.len() && (#[trigger] pre[k]).file_path@ == file;
+        assert(pre[k] == atts[k]);
+        lemma_first_file_exists(atts, file, k);
+    }
+}
+/// a lookup that found something names the session hash (so `prompt_hash.unwrap()` in the overlay cannot panic)
+proof fn lemma_found_has_hash(log: AuthorshipLog, file: Seq<char>, line: u32, r: Option<(Author, Option<String>, Option<PromptRecord>)>)
+    requires gla_post(log, file, line, r), r is Some,
+    ensures r.unwrap().1 is Some, r.unwrap().2 is Some,
+{
+    assert(!no_file(log.attestations@, file));
+    let j = choose|j: int| 0 <= j < log.attestations@.len() && (#[trigger] log.attestations@[j]).file_path@ == file;
+    lemma_first_file_exists(log.attestations@, file, j);
+    let i = choose|i: int| first_file_at(log.attestations@, file, i);
+    assert(lookup_post(log.attestations@[i].entries@, log.metadata, line, r));
+}
+
+//#item file=src/commands/blame.rs kind=region name=ov_hunk in=overlay_ai_authorship from="if let Some(authorship_log) = authorship_log {" to="$block_end" from_nth=0 to_nth=0 opaque='[{"expr": "prompt_commits.entry(prompt_hash.clone()).or_default().insert(hunk.commit_sha.clone())", "call": "opq_note_commit(&mut prompt_commits, &prompt_hash, &hunk.commit_sha)"}, {"expr": "prompt_records.insert(prompt_hash, prompt_record.clone())", "call": "opq_record_prompt(&mut prompt_records, prompt_hash, &prompt_record)"}, {"expr": "CheckpointKind::Human.to_str().to_string()", "call": "opq_owned(CheckpointKind::Human.to_str())"}, {"expr": "\"Unknown\".to_string()", "call": "opq_unknown_name()"}]'
+//@ fn region_ov_hunk(authorship_log: Option<AuthorshipLog>, hunk: &BlameHunk, repo: &Repository, file_path: &str, options: &GitAiBlameOptions, line_authors0: HashMap<u32, String>, prompt_records0: HashMap<String, PromptRecord>, prompt_commits0: HashMap<String, std::collections::HashSet<String>>, foreign_prompts_cache0: HashMap<String, Option<PromptRecord>>) -> (r_: HashMap<u32, String>)
+//@     requires hunk_wf(*hunk),
+//@     ensures
+//@         // lines outside the hunk keep what they had
+//@         kept_outside(r_@, line_authors0@, hunk.range.0, hunk.range.1 + 1),
+//@         // with a note: every current line of the hunk shows what the note says about its ORIGINAL line number
+//@         authorship_log is Some ==> forall|l: u32| hunk.range.0 <= l <= hunk.range.1 ==> line_ok(r_@, authorship_log.unwrap(), file_path@, *options, *hunk, l),
+//@         // without a note: every line of the hunk gets the no-note name
+//@         authorship_log is None ==> forall|l: u32| hunk.range.0 <= l <= hunk.range.1 ==> r_@.contains_key(l) && r_@[l]@ == no_note_name(*options, *hunk),
+//@ {
+//@     let mut line_authors = line_authors0; let mut prompt_records = prompt_records0; let mut prompt_commits = prompt_commits0; let mut foreign_prompts_cache = foreign_prompts_cache0;
+//@     let ghost m0 = line_authors0@; let ghost h = *hunk; let ghost o = *options; let ghost fp = file_path@;
+        if let Some(authorship_log) = authorship_log {
+            //@ let ghost log = authorship_log;
+            // Check each line in this hunk for AI authorship using compact schema
+            // IMPORTANT: Use the original line numbers from the commit, not the current line numbers
+            let num_lines = hunk.range.1 - hunk.range.0 + 1;
+            for i in it_0: 0..num_lines
+            //@     invariant
+            //@         hunk_wf(h), h == *hunk, o == *options, fp == file_path@, log == authorship_log, m0 == line_authors0@,
+            //@         num_lines == h.range.1 - h.range.0 + 1,
+            //@         kept_outside(line_authors@, m0, h.range.0, h.range.0 + it_0.index@),
+            //@         forall|l: u32| h.range.0 <= l && (l as int) < h.range.0 + it_0.index@ ==> line_ok(line_authors@, log, fp, o, h, l),
+            {
+                //@ let ghost k = it_0.index@;
+                //@ let ghost ma = line_authors@;
+                //@ proof { assert(i == k); }
+                let current_line_num = hunk.range.0 + i;
+                let orig_line_num = hunk.orig_range.0 + i;
+                //@ proof { assert(orig_line_num == orig_of(h, current_line_num)); }
+                //@ let ghost mut rw: Option<(Author, Option<String>, Option<PromptRecord>)> = None;
+
+                if let Some((author, prompt_hash, prompt)) = authorship_log.get_line_attribution(
+                    repo,
+                    file_path,
+                    orig_line_num,
+                    &mut foreign_prompts_cache,
+                ) {
+                    //@ proof { rw = Some((author, prompt_hash, prompt)); assert(gla_post(log, fp, orig_line_num, rw)); lemma_found_has_hash(log, fp, orig_line_num, rw); }
+                    // If this line is AI-assisted, display the tool name; otherwise the human username
+                    if let Some(prompt_record) = prompt {
+                        let prompt_hash = prompt_hash.unwrap();
+                        // Track that this prompt hash appears in this commit
+                        opq_note_commit(&mut prompt_commits, &prompt_hash, &hunk.commit_sha);
+                        if options.use_prompt_hashes_as_names {
+                            line_authors.insert(current_line_num, prompt_hash.clone());
+                        } else {
+                            line_authors
+                                .insert(current_line_num, prompt_record.agent_id.tool.clone());
+                        }
+                        opq_record_prompt(&mut prompt_records, prompt_hash, &prompt_record);
+                    } else {
+                        // Has authorship log but line not AI = human-authored
+                        if options.return_human_authors_as_human {
+                            line_authors.insert(
+                                current_line_num,
+                                opq_owned(CheckpointKind::Human.to_str()),
+                            );
+                        } else {
+                            line_authors.insert(current_line_num, author.username.clone());
+                        }
+                    }
+                } else {
+                    //@ proof { rw = None; assert(gla_post(log, fp, orig_line_num, rw)); }
+                    // Has authorship log but no attribution found = human-authored
+                    if options.return_human_authors_as_human {
+                        line_authors
+                            .insert(current_line_num, opq_owned(CheckpointKind::Human.to_str()));
+                    } else {
+                        line_authors.insert(current_line_num, hunk.original_author.clone());
+                    }
+                }
+                //@ proof {
+                //@     assert(line_authors@.contains_key(current_line_num) && line_authors@[current_line_num]@ == shown(rw, o, h));
+                //@     assert(gla_post(log, fp, orig_of(h, current_line_num), rw));
+                //@     assert forall|l: u32| h.range.0 <= l && (l as int) < h.range.0 + k + 1 implies line_ok(line_authors@, log, fp, o, h, l) by {
+                //@         if l != current_line_num {
+                //@             assert(line_ok(ma, log, fp, o, h, l));
+                //@             let r = choose|r: Option<(Author, Option<String>, Option<PromptRecord>)>| #[trigger] gla_post(log, fp, orig_of(h, l), r) && ma[l]@ == shown(r, o, h);
+                //@             assert(gla_post(log, fp, orig_of(h, l), r) && line_authors@[l]@ == shown(r, o, h));
+                //@         }
+                //@     }
+                //@ }
+            }
+        } else {
+            // No authorship log for this commit
+            for line_num in it_1: hunk.range.0..=hunk.range.1
+            //@     invariant
+            //@         hunk_wf(h), h == *hunk, o == *options, m0 == line_authors0@,
+            //@         range_rem(it_1.snapshot@.remaining(), h.range.0 as int, h.range.1 as int),
+            //@         kept_outside(line_authors@, m0, h.range.0, h.range.0 + it_1.index@),
+            //@         forall|l: u32| h.range.0 <= l && (l as int) < h.range.0 + it_1.index@ ==> line_authors@.contains_key(l) && line_authors@[l]@ == no_note_name(o, h),
+            {
+                //@ proof { assert(line_num == h.range.0 + it_1.index@); }
+                if options.mark_unknown {
+                    // User wants explicit distinction - mark as Unknown
+                    line_authors.insert(line_num, opq_unknown_name());
+                } else if options.return_human_authors_as_human {
+                    line_authors.insert(line_num, opq_owned(CheckpointKind::Human.to_str()));
+                } else {
+                    line_authors.insert(line_num, hunk.original_author.clone());
+                }
+            }
+        }
+//@     line_authors
+//@ }
+//#end
 
 } // verus!
 fn main() {}
